@@ -243,6 +243,8 @@ def rule_guards(ctx):
         ("SELECT", False, True, (90105, "22000")),
         ("SELECT", True, True, None),
         ("SELECT qualified", False, False, None),
+        ("SELECT information_schema view", False, False, (90105, "22000")),  # information_schema is per database: which one?
+        ("SELECT information_schema view", True, False, None),
         ("SELECT qualified subquery in projection", False, False, (90105, "22000")),
         ("SELECT qualified subquery in projection", True, False, (90106, "22000")),
         ("SELECT qualified FROM unqualified JOIN", False, False, (90105, "22000")),
@@ -347,7 +349,15 @@ def rule_own_context(ctx):
 
 from .c14 import rule_typestate as rule_connect_context  # noqa: E402  (the context set at connect is part of C03)
 
+def rule_pandas_create_target(ctx):
+    """C03.g = C01.c6: a table write_pandas creates for a load into `<database>.<schema>.<table>` is created under that name,
+    not under the session's current schema (imported lazily: c01 imports from this module's siblings)."""
+    from .c01 import rule_pandas_create_target as r_
+    r_(ctx)
+
+
 RULES = [
+    ("C03.g", rule_pandas_create_target, ("quick", "thorough")),
     ("C03.f", rule_connect_context, ("quick", "thorough")),
     ("C03.a", rule_handle, ("quick", "thorough")),
     ("C03.b", rule_after_accept, ("quick", "thorough")),
